@@ -13,7 +13,8 @@ RULE = (
     "configurations: S1 (two sequential tasks), S2 (parallel then task), S5b (over-committed parallel: several rows per step on one worker), "
     "S9 (three tasks stacked on one client, each ending exactly on a worker wake-up), S10 (8 s service times so that the driver's 30 s periodic "
     "post-processing fires inside a task), S11 (composite operation with two named dependent sub-requests), S12 (the last task ends exactly on a "
-    "worker wake-up), S13 (completed-by with a sibling request in flight) x layouts {1x1, 1x2, 2x1} x "
+    "worker wake-up), S13 (completed-by with a sibling request in flight), S15 (40 s of short requests across the periodic post-processing; "
+    "default schedule) x layouts {1x1, 1x2, 2x1} x "
     "downsampling {1, 2} x sample queue {default, 2}; schedules: every sequence of message deliveries, wake-ups, thread steps, time advances "
     "and handler preemptions within the deviation bound. non-trivial = execution with at least one deviation; distinct = (configuration, choices)"
 )
@@ -57,6 +58,9 @@ SHAPES = {
     # the last task of the race ends exactly on a worker wake-up: the final join point races with the last sample shipment
     "S12": lambda: [T("a", 1, it=10)],
     # completed-by: the sibling has a request in flight when the named task finishes
+    # 40 s of short requests (4 per second): the driver's 30 s periodic post-processing cuts the task's samples into several batches with
+    # several samples per throughput bucket (default schedule only)
+    "S15": lambda: [T("a", 2, it=80), T("b", 1, it=1)],
     "S13": lambda: [P([loadgen.make_task("a", "a", clients=1, iterations=3, completes_parent=True),
                        loadgen.make_task("b", "b", clients=1, time_period=100_000, warmup_time_period=0)]), T("c", 2, it=1)],
 }
@@ -74,6 +78,8 @@ def behaviour_for(shape):
 def configs(tier):
     out = []
     for shape in SHAPES:
+        if shape == "S15":
+            continue
         for lname in LAYOUTS:
             if shape in ("S9", "S10", "S11", "S12") and lname != "1x1" and tier == "quick":
                 continue
@@ -96,7 +102,21 @@ def check_race(cfg, ch, res):
         extra[("reporting", "metrics.request.downsample.factor")] = factor
     if qsize:
         extra[("reporting", "sample.queue.size")] = qsize
-    r = racesim.run_race(schedule, hosts, cores, behaviour_for(shape), ch, horizon=HORIZON, cfg_extra=extra, store=True, line_preempt=lp)
+    # every batch of raw samples that the driver post-processes is also kept aside (harness side): at the end the same samples go through
+    # a fresh ThroughputCalculator in ONE batch, which gives the reference for the throughput values the race stored
+    drv = racesim.setup()["driver"]
+    batches = []
+    orig_pp = drv.SamplePostprocessor.__call__
+
+    def recording_pp(self, raw_samples):
+        batches.append(list(raw_samples))
+        return orig_pp(self, raw_samples)
+
+    drv.SamplePostprocessor.__call__ = recording_pp
+    try:
+        r = racesim.run_race(schedule, hosts, cores, behaviour_for(shape), ch, horizon=HORIZON, cfg_extra=extra, store=True, line_preempt=lp)
+    finally:
+        drv.SamplePostprocessor.__call__ = orig_pp
     names = [n for _t, n, _m in r.received]
     v = None
     docs = r.rc.store.docs if hasattr(r, "rc") and r.rc.store is not None else []
@@ -158,6 +178,26 @@ def check_race(cfg, ch, res):
             extra_keys = [k for k in got if k not in known and k not in sub_keys]
             if v is None and extra_keys:
                 v = ("phantom-records", f"records for {extra_keys[:4]} that match no request")
+        if v is None and batches:
+            # throughput values: the last value of every task, and every value at a time that the one-batch reference also reports, must
+            # equal what a fresh calculator makes of all samples at once (however the race happened to batch them)
+            allsamples = [smp for b in batches for smp in b]
+            ref = drv.ThroughputCalculator().calculate(allsamples)
+            for task_obj, tuples in ref.items():
+                mine = sorted((d["@timestamp"], d["value"]) for d in docs if d["name"] == "throughput" and d.get("task") == task_obj.name)
+                want = sorted((int(round(at * 1000)), val) for at, _rt, _st, val, _u in tuples)
+                if not mine or not want:
+                    continue
+                wmap = {}
+                for ts, val in want:
+                    wmap.setdefault(ts, []).append(val)
+                bad = [(ts, val, wmap[ts]) for ts, val in mine if ts in wmap and not any(abs(val - w) <= 1e-9 * max(1.0, abs(w)) for w in wmap[ts])]
+                if bad:
+                    v = ("throughput-depends-on-batching", f"task {task_obj.name}: stored {bad[0][1]} at {bad[0][0]} ms, all samples in one batch give {bad[0][2]}")
+                    break
+                if abs(mine[-1][1] - want[-1][1]) > 1e-9 * max(1.0, abs(want[-1][1])) and mine[-1][0] == want[-1][0]:
+                    v = ("final-throughput", f"task {task_obj.name}: last stored value {mine[-1]}, one batch gives {want[-1]}")
+                    break
         if v is None:
             # every task with requests has throughput records (throughput is computed from all samples)
             thr_tasks = {d.get("task") for d in docs if d["name"] == "throughput"}
@@ -186,6 +226,8 @@ def check_race(cfg, ch, res):
 
 def differential(res):
     """downsampling must not change throughput: same default schedule with factor 1 and 2"""
+    for lname in ("1x1", "1x2"):
+        check_race(("S15", lname, 1, None), explore.Chooser(()), res)
     for shape in ("S1", "S5b", "S9"):
         thr = {}
         for factor in (1, 2):
